@@ -12,7 +12,7 @@ SEAM = ("Trusted base: the harness seam (real SimApp wired by e2e.AppConfig, mes
 CHECKS = {
  "C19": ("model_checking",
          "explicit-state exhaustive search (depth-bounded DFS with canonical-state dedup) over the real record keeper on branched stores, append-only reference list compared in every state",
-         "Every sequence of <= depth create/multi-message/block operations by 2 creators over 2 contents is executed on the real message server; ids are checked unique along every path and every earlier record is re-read (contents, creator, tx hash) in every reached state; the Msg service descriptor is enumerated for other entry points. Every state also reads the ids known from other paths of the process (absent unless created on this path).",
+         "Every sequence of <= depth create/multi-message/block operations by 2 creators over 2 contents is executed on the real message server; ids are checked unique along every path and every earlier record is re-read (contents, creator, tx hash) in every reached state; the Msg service descriptor is enumerated for other entry points. Every state also reads the ids known from other paths of the process (absent unless created on this path). One part adds restart-from-genesis: every record must survive it exactly once and the module may not refuse its own export (ids recomputed on import: recorded finding).",
          "DESIGN.md §3 C19"),
  "C05": ("model_checking",
          "explicit-state exhaustive search over stake/unstake/harvest/adjust/destroy/block sequences on the real farm keeper (branched stores, canonical-state dedup), with a full-withdrawal epilogue in every order evaluated in every reached state",
@@ -28,23 +28,23 @@ CHECKS = {
          "DESIGN.md §3 C01"),
  "C02": ("model_checking",
          "explicit-state exhaustive search over swap/liquidity message sequences with a full balance-sheet oracle (all accounts of the universe + supply per denom) and a differential bound oracle (amounts learned on a throw-away branch, then bounds set exact / off by one)",
-         "Every sequence up to the depth bound of sell/buy orders (single and routed, recipient = sender / other / blocked, bounds loose / exact / missed by one, deadline now / past) and liquidity messages (incl. first add on a new pool with creation fee, re-seeding a drained pool): the observed delta of every account and every supply must equal exactly what the property allows; stated maxima/minima and deadlines are checked on what actually moved.",
+         "Every sequence up to the depth bound of sell/buy orders (single and routed, recipient = sender / other / blocked, bounds loose / exact / missed by one, deadline now / past) and liquidity messages (incl. first add on a new pool with creation fee, re-seeding a drained pool): the observed delta of every account and every supply must equal exactly what the property allows; stated maxima/minima and deadlines are checked on what actually moved. A withdrawal offering a coin that merely looks like a liquidity token (name ending in a pool's sequence number) must never succeed.",
          "DESIGN.md §3 C02"),
  "C03": ("model_checking",
          "explicit-state exhaustive search over create/claim/block/jump-to-expiry sequences on the real HTLC keeper with a contract-status reference model and a full balance-sheet oracle per message and per begin-block",
-         "Every sequence up to the depth bound of creates (plain single/multi-coin, duplicate ids, timestamped hash locks, incoming/outgoing cross-chain), claims (right / wrong secret, on open / completed / refunded contracts) and block steps around the expiration height (several contracts expiring at one height): state only moves open->completed|refunded, funds move exactly once and only as the property says, refunds happen exactly in the begin-block of the expiration height with one event each, escrow = open contracts. Two further parts add restart-from-genesis (export, validation, emptied stores, InitGenesis) as an operation; the reference forgets closed contracts, which the export drops by design.",
+         "Every sequence up to the depth bound of creates (plain single/multi-coin, duplicate ids, timestamped hash locks, incoming/outgoing cross-chain), claims (right / wrong secret, on open / completed / refunded contracts) and block steps around the expiration height (several contracts expiring at one height): state only moves open->completed|refunded, funds move exactly once and only as the property says, refunds happen exactly in the begin-block of the expiration height with one event each, escrow = open contracts. Two further parts add restart-from-genesis (export, validation, emptied stores, InitGenesis) as an operation; the reference forgets closed contracts, which the export drops by design. The restart is offered inside a block, between two blocks (InitGenesis under the next block's height) and with an initial height 51 above the export's (overdue contracts stay open; funds leave escrow at most once).",
          "DESIGN.md §3 C03"),
  "C04": ("model_checking",
          "explicit-state exhaustive search as C03 with two time-limited assets, block-time steps that straddle the limit period, and counters recomputed from the HTLC queries and an independent tumbling-window reference",
-         "In every reached state: escrow = open ordinary + open outgoing; per asset incoming/outgoing counters = sums over open transfers; current = minted - burned = bank supply; current + incoming <= limit; amount completed inside one reference window <= time-based limit (two assets with different periods, so cross-asset interference in the window reset is visible). A part imports the exported genesis of a reachable state broken in exactly one way per case (four cases) and requires the import to refuse it; two parts add restart-from-genesis as an operation.",
+         "In every reached state: escrow = open ordinary + open outgoing; per asset incoming/outgoing counters = sums over open transfers; current = minted - burned = bank supply; current + incoming <= limit; amount completed inside one reference window <= time-based limit (two assets with different periods, so cross-asset interference in the window reset is visible). A part imports the exported genesis of a reachable state broken in exactly one way per case (four cases) and requires the import to refuse it; two parts add restart-from-genesis as an operation (inside a block, between two blocks, and at a later initial height).",
          "DESIGN.md §3 C04"),
  "C15": ("model_checking",
          "explicit-state exhaustive search over issue/mint/edit/transfer/burn/transfer-class sequences with boundary uint64 amounts on the real MT keeper, exact big-integer reference ledger compared through every query after every message",
-         "Every sequence up to the depth bound by three actors with amounts {1, 2^63, 2^64-1, balance, balance+1, fill-to-max(+1)}: must-reject rules (authority, overflow, insufficient balance), every queried balance/supply/metadata/owner equals the exact model, sum of balances = supply from queries and from the raw store, generated ids never reused.",
+         "Every sequence up to the depth bound by three actors with amounts {1, 2^63, 2^64-1, balance, balance+1, fill-to-max(+1)}: must-reject rules (authority, overflow, insufficient balance), every queried balance/supply/metadata/owner equals the exact model, sum of balances = supply from queries and from the raw store, generated ids never reused. A genesis-import part bends the exported genesis of a reachable state in six ways (incl. balances that wrap to the recorded supply in 64 bits): an accepted import must satisfy the conservation invariant in unbounded integers.",
          "DESIGN.md §3 C15"),
  "C20": ("exploration",
          "exhaustive enumeration over all .proto files / descriptors of both generated families linked into one binary, and over a descriptor-driven bounded value space per message (round trips in both directions); every generated client stub method of both families called once on a recording connection",
-         "All 55 proto files, 318 messages, 22 services: inventory in both registries, structural descriptor comparison incl. options (file-level generator options aside), 6.7k cross-family encode/decode/re-encode round trips, and for every Msg request type: registered as sdk.Msg, signer option names an existing string field from which a signer address can be extracted; all 240 client stub methods ask for the route /<service>/<method> of their own service. The gogoproto Go value decoded in a round trip is also compared field by field, through the generated struct tags, with the api/ message.",
+         "All 55 proto files, 318 messages, 22 services: inventory in both registries, structural descriptor comparison incl. options (file-level generator options aside), 6.7k cross-family encode/decode/re-encode round trips, and for every Msg request type: registered as sdk.Msg, signer option names an existing string field from which a signer address can be extracted; all 240 client stub methods ask for the route /<service>/<method> of their own service. The gogoproto Go value decoded in a round trip is also compared field by field, through the generated struct tags, with the api/ message. Enum fields range over the declared values, an undeclared one, -1 and -2^31.",
          "DESIGN.md §3 C20"),
  "C09": ("model_checking",
          "explicit-state exhaustive search over issue/edit/mint/burn/transfer-owner sequences by owner and stranger on the real token keeper (13 explorations: identity collisions, cap at scales 0/1/18, 9 fee-parameter sets), exact big-integer supply/burn reference compared through every query",
@@ -68,7 +68,7 @@ CHECKS = {
          "DESIGN.md §3 C16"),
  "C13": ("model_checking",
          "explicit-state exhaustive search with the HTLC, farm and service drivers in block-safety mode: recover() around every real begin/end blocker, due-processing oracles (refund exactly at expiry, pool refund exactly at end height, batches exactly on schedule) and raw-queue-versus-object hygiene evaluated in every reached state",
-         "Every sequence up to the depth bound including objects created, modified, paused, destroyed or re-scheduled in the block they fall due, several objects due at one height and block-time steps from 1 s to 21 days: no blocker panics or returns an error; every queue entry refers to an existing object awaiting processing at exactly its due height, every awaiting object has exactly one entry, nothing stays queued at a processed height, height markers agree with entries, no request stays active past its expiration.",
+         "Every sequence up to the depth bound including objects created, modified, paused, destroyed or re-scheduled in the block they fall due, several objects due at one height and block-time steps from 1 s to 21 days: no blocker panics or returns an error; every queue entry refers to an existing object awaiting processing at exactly its due height, every awaiting object has exactly one entry, nothing stays queued at a processed height, height markers agree with entries, no request stays active past its expiration. The htlc parts include governance delisting / relisting an asset while transfers are open, and restarts between blocks.",
          "DESIGN.md §3 C13, appendix B"),
  "C17": ("model_checking",
          "explicit-state exhaustive search over create/start/pause/edit (creator and stranger)/respond (signed, zero, large, non-numeric, error)/drain/block/jump sequences on the real oracle+service keepers, exact big-rational reference of the per-feed value list compared through the queries in every state",
@@ -76,19 +76,19 @@ CHECKS = {
          "DESIGN.md §3 C17"),
  "C10": ("model_checking",
          "exhaustive enumeration of LossLessSwap over all scale pairs 0..18 x an input lattice x 8 ratios against exact rational arithmetic, plus explicit-state exhaustive search over ERC20 conversions (both directions, by min unit and by symbol, swap-to-native hook, ERC20 switch off/on, restart from exported genesis) with a store-backed fault-injecting EVM (<= 1 fault per conversion) and fee-token swaps at three ratios on the real token keeper",
-         "Kernel: 0 <= burned <= offered, minted*10^s_in <= burned*ratio*10^s_out, equality and unconvertible dust at ratio 1. Search: every conversion moves exactly the amount on both ledgers and keeps native+ERC20 supply constant; any failure (insufficient balance, blocked receiver, injected EVM call error / VM failure / wrong credited amount / balanceOf error) leaves both ledgers unchanged; fee swaps never burn more than offered, never mint more than worth, supplies move by exactly burned/minted, module account empty. The fee-swap registry is built once per application instance; one part issues the second fee token on the path with one of two scales.",
+         "Kernel: 0 <= burned <= offered, minted*10^s_in <= burned*ratio*10^s_out, equality and unconvertible dust at ratio 1. Search: every conversion moves exactly the amount on both ledgers and keeps native+ERC20 supply constant; any failure (insufficient balance, blocked receiver, injected EVM call error / VM failure / wrong credited amount / balanceOf error) leaves both ledgers unchanged; fee swaps never burn more than offered, never mint more than worth, supplies move by exactly burned/minted, module account empty. The fee-swap registry is built once per application instance; one part issues the second fee token on the path with one of two scales; one part deploys the contract with other decimals than the token's scale (the EVM seam answers decimals() accordingly).",
          "DESIGN.md §3 C10"),
  "C12": ("model_checking",
          "explicit-state exhaustive search with 15 module drivers (record, coinswap, farm x3, htlc x2, token, nft, mt x2, service, random, oracle x2; governance parameter changes offered as operations) wrapped by a genesis round-trip oracle evaluated in every reached state at the block boundary: export -> module's own validation -> InitGenesis on a second application instance with emptied stores -> export again (byte fixpoint) -> first begin-block -> query comparison on the original object ids; second variant after the modules' prepare-for-zero-height step, with a census of durable objects before/after that step",
-         "In every reachable state of the drivers (bounded depth): the exported genesis (auth, bank and the module's) passes the module's ValidateGenesis, InitGenesis does not panic, the second export equals the first, and pools / stakes and pending rewards / open HTLCs and asset supplies / tokens and burn tallies / NFT classes, collections, owners, supply / MT classes, tokens, balances / service definitions, bindings, contexts, earned fees / feeds with their values / records by original id answer identically after re-import.",
+         "In every reachable state of the drivers (bounded depth): the exported genesis (auth, bank and the module's) passes the module's ValidateGenesis, InitGenesis does not panic, the second export equals the first, and pools / stakes and pending rewards / open HTLCs and asset supplies / tokens and burn tallies / NFT classes, collections, owners, supply / MT classes, tokens, balances / service definitions, bindings, contexts, earned fees / feeds with their values / records by original id answer identically after re-import. Six bulk parts start from states with 130 objects of a module (more than a page of the paginated store walk) and ask for every object by its own id.",
          "DESIGN.md §3 C12"),
  "C18": ("model_checking",
          "exhaustive enumeration of the PRNG over a lattice of block hashes, times, requesters and seeds in two evaluation orders, plus explicit-state exhaustive search over request (plain and oracle-seeded, intervals 0..3, two requesters, chains starting at height 1 and 253)/respond (valid, malformed, error)/block sequences on the real random+service keepers with a pending-set reference model compared through the queries in every state",
-         "Kernel: result in [0,1) with exactly 20 fractional digits, a function of its inputs only. Search: each request is fulfilled exactly once in the begin-block following height h+n (oracle requests when the seed arrives, never on a malformed seed or timeout), is absent from the pending queue afterwards, the stored number equals the PRNG of (previous app hash, block time, requester, seed) and reads back unchanged in every later state; several requests due at one height from two requesters and from one requester in different blocks are covered. One part adds restart-from-genesis as an operation (the reference forgets stored numbers, which the export drops by design; waiting requests must still be served).",
+         "Kernel: result in [0,1) with exactly 20 fractional digits, a function of its inputs only. Search: each request is fulfilled exactly once in the begin-block following height h+n (oracle requests when the seed arrives, never on a malformed seed or timeout), is absent from the pending queue afterwards, the stored number equals the PRNG of (previous app hash, block time, requester, seed) and reads back unchanged in every later state; several requests due at one height from two requesters and from one requester in different blocks are covered. One part adds restart-from-genesis as an operation (the reference forgets stored numbers, which the export drops by design; waiting requests must still be served), inside a block and between two blocks.",
          "DESIGN.md §3 C18"),
  "C11": ("model_checking",
          "explicit-state exhaustive search with 20 module drivers in which every transition is re-executed from the same pre-state on fresh application instances (state transplanted key by key = restart / other node) under deviating host clocks (+-7 min, +400 days, clock = block time) and map iteration orders (runtime seeds 1..7), both controlled through a build-time overlay of GOROOT's time and runtime packages; whole-application state hash, transaction result and exported genesis compared byte for byte; plus cross-process replicas: the enumerated op paths of every driver (length <= 4, first 1500) executed in three operating-system processes, one of them walking siblings in reverse order, digests of all stores and exports compared path by path",
-         "Every transition of every driver up to the (reduced) depth bound: the warm search instance under the baseline environment and cold replicas under deviating environments must agree on the result class and on every KV store of the application; in every reached state the exported genesis of bank and the driver's modules must be identical under every map seed and clock offset. One search worker per process (seams are process-global), one process per driver. Across processes: the same history leads to the same stores and exported genesis whatever the process drew for itself (maphash seeds, start time) and whatever other paths it executed before.",
+         "Every transition of every driver up to the (reduced) depth bound: the warm search instance under the baseline environment and cold replicas under deviating environments must agree on the result class, on every KV store of the application and on a digest of what the transition returned (typed responses, events with their attributes in order, begin/end-block events); one deviation runs under another host time zone; in every reached state the exported genesis of bank and the driver's modules must be identical under every map seed and clock offset. One search worker per process (seams are process-global), one process per driver. Across processes: the same history leads to the same stores and exported genesis whatever the process drew for itself (maphash seeds, start time) and whatever other paths it executed before.",
          "DESIGN.md §3 C11"),
 }
 NOT_YET = "check not built yet in this phase of the work (see DESIGN.md §6 change log); not claimed"
